@@ -1108,7 +1108,7 @@ func runGenesis(seed uint64, n int, out *Out) {
 		}
 		r := NewRng(seed*1_000_003 + uint64(h))
 		r = &Rng{s: r.U64() ^ 0x6e5e515c16}
-		lean := h%4 != 3      // every fourth history carries subaccount-driven core traffic (core state not replayed)
+		lean := h%4 != 3       // every fourth history carries subaccount-driven core traffic (core state not replayed)
 		withReward := h%3 == 0 // a third of the histories carry reward traffic
 		g := newGRun(out, h, r, lean, cfg)
 		g.setParams(uint32(r.Pick([]int64{1, 2, 1000})), 2, r.Pick([]int64{0, 1}), r.Pick([]int64{2, 10, 100}),
